@@ -478,7 +478,7 @@ class IH5Record(IH5Group):
         if mode[0] == "w" or mode == "x":
             # create new or overwrite to get new
             ret = self._create(path, truncate=(mode == "w"))
-            self.__dict__.update(ret.__dict__)
+            self.__dict__.update(ret.__dict__, _record=self)
             return
 
         if mode == "a" or mode[0] == "r":
@@ -490,13 +490,13 @@ class IH5Record(IH5Group):
                     raise FileNotFoundError(f"No files found for record: {path}")
                 else:  # 'a' means create new if not existing (will be writable)
                     ret = self._create(path, truncate=False)
-                    self.__dict__.update(ret.__dict__)
+                    self.__dict__.update(ret.__dict__, _record=self)
                     return
 
             # open existing (will be ro if everything is fine, writable if latest patch was uncommitted)
             want_rw = mode != "r"
             ret = self._open(paths, reopen_incomplete_patch=want_rw, **kwargs)
-            self.__dict__.update(ret.__dict__)
+            self.__dict__.update(ret.__dict__, _record=self)
             self._allow_patching = want_rw
 
             if want_rw and not self._has_writable:
